@@ -53,14 +53,18 @@ def run(ck, replay=None):
     darsia = import_darsia()
     q = darsia.quadrature
     events = []
-    for (d, n, cell) in scn:
+    # the tables must not depend on which reference element was requested first, or how often:
+    # every rule is requested in the order unit -> sym -> unit -> sym within one process
+    for (d, n, cell) in sorted(scn, key=lambda t: (t[0], t[1], t[2] != "unit")):
         events.append(rule_event(q, d, n - 1, cell, f"gauss:{d}d:order{n-1}:{cell}"))
+    for (d, n, cell) in sorted(scn, key=lambda t: (t[0], t[1], t[2] != "unit")):
+        events.append(rule_event(q, d, n - 1, cell, f"gauss-again:{d}d:order{n-1}:{cell}"))
     for d in (1, 2, 3):
-        for cell in ("sym", "unit"):
-            events.append(rule_event(q, d, "max", cell, f"gauss:{d}d:max:{cell}"))
+        for cell in ("unit", "sym", "unit", "sym"):
+            events.append(rule_event(q, d, "max", cell, f"gauss:{d}d:max:{cell}:{len(events)}"))
             events.append(rule_event(q, d, 5, cell, f"gauss:{d}d:order5:{cell}"))
         events.append(corner_event(q, d, f"corners:{d}d"))
-    if all(e["op"] == "rejected" for e in events if e["tid"].endswith(":max:sym")):
+    if all(e["op"] == "rejected" for e in events if ":max:sym" in e["tid"]):
         raise RuntimeError("no rule accepted")
     bad = ck.validate("Trace_Quadrature", "Trace.cfg", events)
     for b in bad:
